@@ -24,4 +24,52 @@ theorem C16_next_bid (env : Env) (s : State) (id : String) (b : Bid) (hs : sane 
   simp only [hb', Bool.and_eq_true, Option.isNone_iff_eq_none] at hok
   exact hok
 
+/-- the same through expiry: what the bid query reports is what an executor's expiry returns to
+    the owner, and that expiry succeeds -/
+theorem C16_next_bid_expire (env : Env) (s : State) (id exec : String) (b : Bid) (hs : sane s = true)
+    (hq : query s (.getBid id) = .ok (.bid b)) (hex : memS exec s.info.executors = true) :
+    ∃ s' r, execute env s ⟨exec, [], .expireBid id⟩ = .ok (s', r) ∧
+      paysExactly env.contract r.msgs
+        [(b.owner, b.quote.denom, b.remQuote), (b.owner, b.quote.denom, b.remFee)] = true ∧
+      s'.bids.get? id = none := by
+  have := query_ok.mp hq
+  simp only at this
+  obtain ⟨_, b', hb', he⟩ := this
+  cases he
+  obtain ⟨s', r, hx, hok⟩ := C06_expire_bid env s id exec b hs hb' hex
+  refine ⟨s', r, hx, ?_⟩
+  unfold C06_bidExitOK at hok
+  simp only [hb', Bool.and_eq_true, Option.isNone_iff_eq_none] at hok
+  exact hok
+
+/-- the ask counterpart at full strength (`C16_next_ask` assumes the cancel succeeded; here it is
+    shown to): in a sane state the ask a query reports can be cancelled by its owner, the cancel
+    pays exactly the reported size to the owner and the reported approver escrow to the
+    approver, and the ask is gone afterwards -/
+theorem C16_next_ask_exit (env : Env) (s : State) (id : String) (a : Ask) (hs : sane s = true)
+    (hq : query s (.getAsk id) = .ok (.ask a)) :
+    ∃ s' r, execute env s ⟨a.owner, [], .cancelAsk id⟩ = .ok (s', r) ∧
+      paysExactly env.contract r.msgs
+        ((a.owner, a.base, a.size) ::
+          (match a.cls with | .ready ap conv => [(ap, conv.denom, conv.amount)] | _ => [])) = true ∧
+      s'.asks.get? id = none := by
+  have := query_ok.mp hq
+  simp only at this
+  obtain ⟨_, a', ha', he⟩ := this
+  cases he
+  obtain ⟨s', r, hx, hok⟩ := C06_cancel_ask env s id a hs ha'
+  refine ⟨s', r, hx, ?_⟩
+  unfold C06_askExitOK at hok
+  simp only [ha', Bool.and_eq_true, Option.isNone_iff_eq_none] at hok
+  exact hok
+
+/-- an order that a query reported is no longer reported once it has been cancelled: the two
+    halves of the property (faithful while open, absent once closed) chained over one step -/
+theorem C16_reported_then_closed (env : Env) (s : State) (id : String) (b : Bid) (hs : sane s = true)
+    (hq : query s (.getBid id) = .ok (.bid b)) :
+    ∃ s' r, execute env s ⟨b.owner, [], .cancelBid id⟩ = .ok (s', r) ∧
+      ∃ e, query s' (.getBid id) = .err e := by
+  obtain ⟨s', r, hx, _, hgone⟩ := C16_next_bid env s id b hs hq
+  exact ⟨s', r, hx, (C16_closed s' id).2 hgone⟩
+
 end Ats.Proofs
